@@ -40,6 +40,12 @@ CLAIMS = {
  "C11": dict(
    text="Lean theorems (Properties/C11.lean): lookups before the start address and beyond the last bit are errors for every payload/start/address; inside the window isBitSet returns bit i%8 of byte len-1-i/8, which equals the Modbus layout (bit i%8 of byte i/8 = CoilsToBytes' layout, proved: write_readback) exactly outside the known-finding region KF-C11-byte-order (the code indexes bytes from the end; pinned by the repository's IsCoilSet tests); witness and negation of the full statement are theorems. Tie to the code: IsCoilSet/IsInputSet on payloads of 1..250 bytes, starts across the address space, addresses inside, before and beyond; CoilsToBytes for every length 0..2000.",
    ref="DESIGN.md §3 C11", technique="Lean 4 proof (bit arithmetic, case analysis) + differential correspondence check"),
+ "C15": dict(
+   text="Lean theorems (Properties/C15.lean) over the model of ModbusTCPAssembler.ReceiveRead + the connection loop: segmentation_independent - for every handler, every byte stream and ANY two ways of cutting it into non-empty reads, the concatenated replies, the close decision and the bytes left in the reassembly buffer are equal (so also equal to delivering the stream in one read); answered_once_in_order - a stream that is a concatenation of delimited frames f1..fn followed by an incomplete rest yields exactly reply(f1)++...++reply(fn), nothing for the rest, which stays buffered; prefix_pending - no proper prefix of a frame produces output; encoded_request_delimited - every encoded request (other than FC17: known finding) is such a frame; runReads_defined - the fuel of the model loop never runs out. Tie to the code: reads of 1..n bytes over streams of 1..6 pipelined requests (all constructors, unsupported functions, malformed bodies, garbage tails) fed to the real ReceiveRead through sub-slices of a connection buffer with stale bytes, handler = conforming device / typed error / generic error / mix; model output compared per read, oracle = ideal framer by length field.",
+   ref="DESIGN.md §3 C15", technique="Lean 4 proof (induction over reads and over the frame loop, append lemma for the classifier) + differential correspondence check"),
+ "C16": dict(
+   text="Lean theorems (Properties/C16.lean): server_reply - for every handler and every complete frame with a valid header and supported function code, whatever follows it in the buffer, the reply is one of: the 9-byte exception (frame's tid, unit, fc|0x80, code 03) when the request parser refuses the frame (never a panic: C10); the handler's response encoded with the request's transaction id; the 9-byte exception with the handler's code or 04 for other errors, all addressed with bytes 0-1, 6, 7 of the frame; reply_unsupported - non-zero unsupported function codes are answered with code 01 and the request's ids; fc3_quantity_code3 - out-of-range quantity is code 03 (general form: C09.accepted_tcp); exception_layout/exception_tid - byte layout. A panicking handler gives no reply in the model (connection closed by recover in Go: covered by C17 operations). Tie to the code: single complete frames over all function codes 0..255, boundary quantities/byte counts/coil values, truncated and over-long bodies x handler kinds; oracle checks ids, length field, exception shape and code independently of the model.",
+   ref="DESIGN.md §3 C16", technique="Lean 4 proof (error-shape invariant of all request parsers, classifier closed form, case analysis of the handler result) + differential correspondence check"),
  "C18": dict(
    text="Lean theorems (Properties/C18.lean): every prefix <8 bytes of any encoded request is 'too short'; every prefix >=8 bytes of an encoded request other than FC17 is accepted with expected length = frame length (FC17's 8-byte request is rejected by pduLen<3: known finding, test-pinned, witness theorem); if the classifier accepts a header and the announced number of bytes is present, ParseTCPRequest either succeeds or returns an error that encodes to a 9-byte exception with the frame's transaction id, unit id, function code and code 1 or 3; unsupported function codes are classified with the matching illegal-function exception. Tie to the code: prefixes of frames of all constructors; 8-byte headers over length fields 0..300+boundaries (thorough 0..65535) x function codes 0..255 x protocol ids, each followed by ParseTCPRequest on a body of the announced length.",
    ref="DESIGN.md §3 C18", technique="Lean 4 proof (closed form of the classifier, error-shape invariant over all request parsers) + differential correspondence check"),
